@@ -502,6 +502,7 @@ pub fn gen_script(rng: &mut Rng, start: &Pos, flavor: Flavor, max_steps: usize) 
         Flavor::JunkList => 30,
     };
     let w = weights(flavor);
+    crate::set_current(&format!("chain {} ; <script being generated>", start.raw_text()));
     let mut g = G {
         rng,
         sim: ChainSim::new(start.board.clone()),
@@ -658,6 +659,7 @@ pub fn gen_eq_probe(rng: &mut Rng, start0: &Pos) -> Script {
             fam: start0.fam,
         }
     };
+    crate::set_current(&format!("chain {} ; <script being generated>", start.raw_text()));
     let mut g = G {
         rng,
         sim: ChainSim::new(start.board.clone()),
